@@ -406,7 +406,9 @@ def prove_connect_to_peer(src_root, ex: Explorer):
         oc = outcomes[ctx.choose(3, 'outcome')]
         created, order = [], []
         # which ports the peer announced and what we prefer (select_port: C11.select_port.table)
-        has_clear, has_obf = [(True, False), (False, True), (True, True)][ctx.choose(3, 'ports')]
+        has_clear, has_obf = [(True, False), (False, True), (True, True), (False, False)][ctx.choose(4, 'ports')]
+        if not has_clear and not has_obf and oc != 'connect-fails':
+            return          # nothing listens on port 0: the connect-back can only fail (and the server must be told so)
         prefer = ctx.choose(2, 'prefer-obfuscated') == 1
         w.net.attrs['_settings'].attrs['network'].attrs['peer'].attrs['obfuscate'] = prefer
         m_port, m_oport = (10 if has_clear else 0), (20 if has_obf else 0)
@@ -462,6 +464,8 @@ def prove_connect_to_peer(src_root, ex: Explorer):
         # the connection is made to the port select_port chose, and speaks obfuscated exactly if that is the obfuscated port
         want = (20, True) if (has_obf and (prefer or not has_clear)) else (10, False)
         got = (created[0].attrs.get('port'), created[0].attrs.get('obfuscated')) if created else None
+        if not has_clear and not has_obf:
+            return
         ctx.prove(f'C11.connect_to_peer.port-and-obfuscation[clear={has_clear},obfuscated={has_obf},prefer={prefer}]', got == want,
                   f'connecting back to (port, obfuscated) = {got}, the announced ports and the preference select {want}: the peer reads garbage')
     ex.run(path, 'connect_to_peer')
@@ -548,6 +552,29 @@ def prove_address_and_state(src_root, ex: Explorer):
     ex.run(conn_state, 'connection-state')
 
 
+def prove_finalize(src_root, ex: Explorer):
+    """_finalize_peer_connection(connection): a messaging ('P') or distributed ('D') connection becomes ESTABLISHED (its message reader
+    runs, it is listed as active); only a file ('F') connection negotiates a transfer and is given the shared rate limiters"""
+    def path(ctx: Ctx):
+        it = mk(src_root, ctx)
+        w = mk_network(it, ctx)
+        typ = ['P', 'D', 'F'][ctx.choose(3, 'type')]
+        up, down = Opaque('shared upload limiter'), Opaque('shared download limiter')
+        w.net.attrs.update(_upload_rate_limiter=up, _download_rate_limiter=down)
+        c = Obj(cls(it, CONN, 'PeerConnection'))
+        own_up, own_down = Opaque('own upload limiter'), Opaque('own download limiter')
+        c.attrs.update(connection_type=typ, obfuscated=False, _reader_task=None, connection_state=None, upload_rate_limiter=own_up, download_rate_limiter=own_down)
+        it.hooks[f'{CONN}:PeerConnection.set_connection_state'] = lambda it2, f, a, k: a[0].attrs.__setitem__('connection_state', a[1])
+        it.call(it.getattr(w.net, '_finalize_peer_connection'), [c], {})
+        st = getattr(c.attrs['connection_state'], 'name', None)
+        if typ == 'F':
+            ok = st == 'NEGOTIATING_TRANSFER' and c.attrs['upload_rate_limiter'] is up and c.attrs['download_rate_limiter'] is down
+        else:
+            ok = st == 'ESTABLISHED' and c.attrs['upload_rate_limiter'] is own_up and c.attrs['download_rate_limiter'] is own_down
+        ctx.prove(f'C11.finalize[type={typ}]', ok, f'a connection of type {typ} was finalised as {st}')
+    ex.run(path, 'finalize')
+
+
 def prove_connect_relies(src_root, ex: Explorer):
     """The strategies tell "this path does not work" (ConnectionFailedError -> try the other path) from "the request was cancelled"
     (CancelledError -> stop, leave nothing behind) by what connect() raises.  That is the exit contract of DataConnection.connect (C10),
@@ -561,7 +588,7 @@ def prove_connect_relies(src_root, ex: Explorer):
 
 
 def items(src_root, tier):
-    return [('connect-relies', None), ('address-state', None), ('indirect', None), ('direct', None), ('fallback', None), ('race', None), ('select_port', None), ('connect_to_peer', None), ('pierce', None)]
+    return [('finalize', None), ('connect-relies', None), ('address-state', None), ('indirect', None), ('direct', None), ('fallback', None), ('race', None), ('select_port', None), ('connect_to_peer', None), ('pierce', None)]
 
 
 def run_item(src_root, item, tier):
@@ -571,7 +598,7 @@ def run_item(src_root, item, tier):
     try:
         {'indirect': prove_indirect, 'direct': prove_direct, 'fallback': prove_fallback, 'race': prove_race, 'select_port': prove_select_port,
          'connect_to_peer': prove_connect_to_peer, 'pierce': prove_pierce, 'address-state': prove_address_and_state,
-         'connect-relies': prove_connect_relies}[kind](src_root, ex)
+         'connect-relies': prove_connect_relies, 'finalize': prove_finalize}[kind](src_root, ex)
     except Unsupported as e:
         res.errors.append(f'{kind}: unsupported: {e}')
     collect(res, ex)
